@@ -11,6 +11,7 @@ canary; the key-directory system calls are read from strace.  TLC validates the 
 spec/trace/KeySecretTrace.tla."""
 import base64
 import json
+import shutil
 import os
 import re
 import stat
@@ -87,16 +88,67 @@ def traffic(tag):
     return st
 
 
+def crash_leftovers(c, needles):
+    """fault dimension: the process is killed at the k-th rename of the latch run (the temp-file -> final-name step of
+    whatever is being published: the key file among them); whatever it leaves behind anywhere -- the run directory and a
+    private TMPDIR -- is scanned: key material may only be found inside the key directory.
+    Returns sink rows."""
+    import subprocess
+    rows = []
+    for k in (1, 2, 3):
+        name = "c12_kill%d" % k
+        d, exe = rig.prepare(name)
+        tmp = os.path.join(d, "tmp")
+        os.makedirs(tmp)
+        steps = [plan("GET /secure-channel/status", 200, status_doc(None)),
+                 plan("POST /secure-channel/key", 200, key_doc(G[0], CAN["ok1"])),
+                 plan("POST /secure-channel/key/*", 200, ""),
+                 {"op": "start_key_keeper", "interval_ms": 40}, {"op": "sleep", "ms": 1200}]
+        sp, out = os.path.join(d, "script.json"), os.path.join(d, "trace.ndjson")
+        json.dump({"steps": steps, "hosts": rig.HOSTS, "proxy_port": 3080, "drain_ms": 100}, open(sp, "w"))
+        env = dict(os.environ, VERIF_CMD="rig", VERIF_SCRIPT=sp, VERIF_OUT=out, RUST_BACKTRACE="0", TMPDIR=tmp)
+        sl = os.path.join(d, "strace.log")
+        launcher = ("strace -f -qq -o %s -e trace=rename,renameat,renameat2 -e inject=rename,renameat,renameat2:signal=SIGKILL:when=%d %s"
+                    % (sl, k, exe))
+        try:
+            p = subprocess.run(["unshare", "-n", "sh", "-c", rig.NS_SETUP + " && exec " + launcher], env=env, cwd=d,
+                               stdout=subprocess.PIPE, stderr=subprocess.STDOUT, timeout=120, text=True, errors="replace")
+        except subprocess.TimeoutExpired:
+            raise util.ToolError("kill-injection run %s timed out" % name)
+        killed = "SIGKILL" in (open(sl, errors="replace").read() if os.path.exists(sl) else "") or p.returncode not in (0,)
+        keydir = os.path.join(d, "keys")
+        nfiles = 0
+        for root, _, files in os.walk(d):
+            for f in files:
+                fp = os.path.join(root, f)
+                if f in ("verif-agent", "script.json", "trace.ndjson", "strace.log", "proxy-agent.json"):
+                    continue
+                data = open(fp, "rb").read()
+                nfiles += 1
+                hit = any(nd in data for nd in needles)
+                inside = fp.startswith(keydir + os.sep)
+                rows.append({"e": "sink", "sink": "keyfile" if inside else ("tempDir" if fp.startswith(tmp + os.sep) else "afterKill"),
+                             "where": ("kill@rename%d:" % k) + os.path.relpath(fp, d)[-60:], "canary": bool(hit), "phase": "killed" if killed else "ran"})
+                c.count(("kill", k, os.path.relpath(fp, d)))
+        c.extra.setdefault("kill_injection_runs", []).append({"rename": k, "killed": bool(killed), "files_scanned": nfiles})
+        shutil.rmtree(d, ignore_errors=True)
+    if not any(r["killed"] for r in c.extra["kill_injection_runs"]):
+        raise util.ToolError("no kill-injection run was actually killed: %s" % c.extra["kill_injection_runs"])
+    return rows
+
+
 def run(c):
     c.assumptions = ASSUME
     build.cargo_build("agent")
     r1 = c.tlc("KeySecret", "KeySecret_redacted.cfg", workers=2, timeout=120,
                required_actions=["AcquireOk", "AcquireNonHex", "AcquireMalformed", "FetchLocal", "PublishStatus", "ProvisionQuery", "ProxySign",
-                                 "UndeliveredReply", "AcquireNon200"])
+                                 "UndeliveredReply", "AcquireNon200", "CrashDuringStore"])
     if r1.violated:
         raise tlcmod.TlcError("KeySecret.tla (redacted design) violates %s" % r1.invariant_violated)
     r2 = c.tlc("KeySecret", "KeySecret_asfound.cfg", workers=2, timeout=120, expect_ok=False)
     c.extra["design_quoting_key_in_errors_leaks"] = bool(r2.invariant_violated)
+    r3 = c.tlc("KeySecret", "KeySecret_stageout.cfg", workers=2, timeout=120, expect_ok=False)
+    c.extra["design_staging_key_outside_key_dir_leaks"] = bool(r3.invariant_violated)
     name = "c12_rig"
     d0 = os.path.join(util.RUNDIR, name)
     status_dir = os.path.join(d0, "logs")
@@ -231,6 +283,11 @@ def run(c):
     c.extra["fs_events"] = len(fs_rows)
     c.extra["sinks_scanned"] = len(rows)
     c.sample({"fs_order": [r["op"] + ":" + r["mode"] for r in fs_rows[:6]], "sinks": sorted({r["sink"] for r in rows})})
+    krows = crash_leftovers(c, needles)
+    for r_ in krows:
+        if r_["canary"] and r_["sink"] != "keyfile":
+            leaks.setdefault((r_["sink"], ("key material",)), []).append((r_["where"], ""))
+    rows += krows
     allrows = fs_rows + rows
     remaining = allrows
     c.traces_validated += 1
